@@ -10,6 +10,45 @@ use serde_json::{json, Value};
 pub struct Sim {
     pub k: Kanata,
     drained: usize,
+    /// number of `tick_states` the latest `tick_ms(1)` call executed (> 1 while a dynamic macro is
+    /// replayed with recorded delays), read off the `t:Nms` markers of the simulated output
+    pub last_nt: u64,
+}
+
+/// Debug name of an OsCode -> code (dynamic macro items are only reachable through `Debug`)
+fn osc_by_debug_name(name: &str) -> Option<u16> {
+    static TAB: std::sync::OnceLock<std::collections::HashMap<String, u16>> = std::sync::OnceLock::new();
+    TAB.get_or_init(|| {
+        let mut m = std::collections::HashMap::new();
+        for c in 0u16..=767 {
+            if let Some(o) = OsCode::from_u16(c) {
+                m.entry(format!("{o:?}")).or_insert(c);
+            }
+        }
+        m
+    })
+    .get(name)
+    .copied()
+}
+
+/// "Press((KEY_A, 3))" -> ["p", 30, 3]; "Release((KEY_A, 0))" -> ["r", 30, 0]; "EndMacro(1)" -> ["e", 1, 0]
+fn dyn_item_json(dbg: &str, cap: u16) -> Value {
+    let (kind, rest) = if let Some(r) = dbg.strip_prefix("Press((") {
+        ("p", r)
+    } else if let Some(r) = dbg.strip_prefix("Release((") {
+        ("r", r)
+    } else if let Some(r) = dbg.strip_prefix("EndMacro(") {
+        let id: u64 = r.trim_end_matches(')').trim().parse().unwrap_or(0);
+        return json!(["e", id, 0]);
+    } else {
+        return json!(["?", dbg, 0]);
+    };
+    let inner = rest.trim_end_matches(')');
+    let mut parts = inner.split(',');
+    let name = parts.next().unwrap_or("").trim();
+    let delay: u16 = parts.next().unwrap_or("0").trim().parse().unwrap_or(0);
+    let code = osc_by_debug_name(name).map(|c| json!(c)).unwrap_or(json!(name));
+    json!([kind, code, delay.min(cap)])
 }
 
 pub fn parse_out_event(names: &KeyNames, s: &str) -> Option<Value> {
@@ -61,7 +100,7 @@ impl Sim {
             fc.insert(k.clone(), v.clone());
         }
         match Kanata::new_from_str(cfg, fc) {
-            Ok(k) => Ok(Sim { k, drained: 0 }),
+            Ok(k) => Ok(Sim { k, drained: 0, last_nt: 1 }),
             Err(e) => Err(format!("{e:?}")),
         }
     }
@@ -114,9 +153,32 @@ impl Sim {
         out
     }
 
+    /// tick_ms(1), counting the `tick_states` it executed: the simulated output writes a `t:Nms`
+    /// marker (ticks since the previous output event) in front of every output event; a sentinel
+    /// output event after the call flushes the ticks that followed the last real event and is
+    /// removed again, so the counter is 0 at the start of every call.
+    fn tick_ms_counted(&mut self) -> Result<(), String> {
+        let start = self.k.kbd_out.outputs.events.len();
+        let r = self.k.tick_ms(1, &None).map_err(|e| format!("{e:?}"));
+        let base = self.k.kbd_out.outputs.events.len();
+        let _ = self.k.kbd_out.write(kanata_state_machine::oskbd::InputEvent { code: 1, up: true });
+        let mut nt: u64 = 0;
+        for (i, s) in self.k.kbd_out.outputs.events[start..].iter().enumerate() {
+            if start + i == self.k.kbd_out.outputs.events.len() - 1 {
+                break; // the sentinel itself
+            }
+            if let Some(n) = s.strip_prefix("t:").and_then(|x| x.strip_suffix("ms")) {
+                nt += n.parse::<u64>().unwrap_or(0);
+            }
+        }
+        self.k.kbd_out.outputs.events.truncate(base);
+        self.last_nt = nt;
+        r
+    }
+
     /// tick_ms(1) followed by can_block_update_idle_waiting(1)
     pub fn tick(&mut self) -> Result<(bool, bool), String> {
-        self.k.tick_ms(1, &None).map_err(|e| format!("{e:?}"))?;
+        self.tick_ms_counted()?;
         let idle = self.k.is_idle();
         let cb = self.k.can_block_update_idle_waiting(1);
         Ok((idle, cb))
@@ -124,7 +186,7 @@ impl Sim {
 
     /// tick_ms(1) only (what the repository's simulation tests do)
     pub fn tick_plain(&mut self) -> Result<(), String> {
-        self.k.tick_ms(1, &None).map_err(|e| format!("{e:?}"))
+        self.tick_ms_counted()
     }
 
     /// Projection of the implementation state on what the detailed model tracks
@@ -158,6 +220,25 @@ impl Sim {
                 Event::Release(i, j) => json!([0, i, j]),
             })
             .collect();
+        // dynamic macros: the stored macros (sorted by id; the trailing run of zero-delay releases
+        // of a macro sorted by code, because the code emits the releases of keys still down at the
+        // stop in HashSet iteration order), whether a recording / a replay is in progress
+        let mut dm: Vec<(u16, Value)> = self
+            .k
+            .dynamic_macros
+            .iter()
+            .map(|(id, items)| {
+                let mut v: Vec<Value> = items.iter().map(|it| dyn_item_json(&format!("{it:?}"), cap)).collect();
+                let mut t = v.len();
+                while t > 0 && v[t - 1][0] == "r" && v[t - 1][2] == 0 {
+                    t -= 1;
+                }
+                v[t..].sort_by_key(|x| x[1].as_u64().unwrap_or(0));
+                (*id, json!(v))
+            })
+            .collect();
+        dm.sort_by_key(|x| x.0);
+        let dm: Vec<Value> = dm.into_iter().map(|(id, v)| json!([id, v])).collect();
         let os = &l.oneshot;
         let coords = |it: &mut dyn Iterator<Item = &(u8, u16)>| -> Vec<Value> {
             it.map(|c| json!([c.0, c.1])).collect()
@@ -184,6 +265,10 @@ impl Sim {
             "tsi": capv(self.k.ticks_since_idle),
             "nwfi": self.k.waiting_for_idle.len(),
             "nvpr": self.k.vkeys_pending_release.len(),
+            "dm": dm,
+            "drec": self.k.dynamic_macro_record_state.is_some(),
+            "drep": self.k.dynamic_macro_replay_state.is_some(),
+            "nt": self.last_nt,
         })
     }
 }
